@@ -221,6 +221,10 @@ def judge(prop, case, ir, sr, mr=None):
         for i in range(max(len(ir), len(mr))):
             a = _proj_lines(ir[i], rx) if i < len(ir) else None
             bb = _proj_lines(mr[i], rx) if i < len(mr) else None
+            if a is not None and bb is not None and " fired=" in ir[i] + mr[i]:
+                # several timers expire in one `elapse`: which client's expires first is not the
+                # property's business (and in the real program depends on libevent's coarse clock)
+                a, bb = sorted(a), sorted(bb)
             if a != bb:
                 what = "queries" if prop == "C06" else "class / trusted user name"
                 return (i, "%s: %s differ from what the proved characterisation demands: got %r, expected %r" % (prop, what, a, bb))
